@@ -117,9 +117,13 @@ Section Final.
   (* what the code computes *)
   Theorem merge_impl_value : merge_impl pb pr s = render abM (rds_segs abM (D ++ L)).
   Proof.
-    unfold merge_impl. rewrite segs_p2. destruct L_shape as [CL|(L0 & EL & CL)].
-    - apply (append_all_nonempty abM fa _ D L base_rep fa_abM); [apply split_nonempty | exact CL].
-    - apply (append_trailing_empty abM fa _ D L base_rep fa_abM L0 EL CL).
+    unfold merge_impl. rewrite segs_p2.
+    assert (ctxM : ctx_ok false fa abM) by (intros E; apply fa_abM; destruct fa; [reflexivity | discriminate E]).
+    assert (good : forall l, clean l -> Forall (fun x => nonempty_seg x /\ seg_ctx false x) l).
+    { intros l Cl. eapply Forall_impl; [|exact Cl]. intros x Hx. split; [exact Hx | intros E0; discriminate E0]. }
+    destruct L_shape as [CL|(L0 & EL & CL)].
+    - apply (append_all_nonempty false abM fa _ D L base_rep ctxM); [apply split_nonempty | exact (good _ CL)].
+    - apply (append_trailing_empty false abM fa _ D L base_rep ctxM L0 EL (good _ CL)).
   Qed.
 
   (* what RFC 3986 5.2.3 builds *)
